@@ -238,6 +238,13 @@ func (f *RunningEventFilter) onReorg(writer db.KeyValueWriter) error {
 		return err
 	}
 
+	// The snapshot persisted at the last shutdown describes the chain as it was then. Once a
+	// block is reverted it may cover blocks that are being replaced, so it must not survive
+	// a crash: drop it together with the revert (a clean shutdown writes a fresh one).
+	if err := DeleteRunningEventFilter(writer); err != nil {
+		return fmt.Errorf("deleting stale running event filter snapshot: %w", err)
+	}
+
 	currRangeStart := f.inner.FromBlock()
 	curBlock := f.next - 1
 	// Falls into previous filter's range
